@@ -243,6 +243,7 @@ def run_once(ctx, res, seed, n, reqs, tag):
         res.count('handler=%s' % ('with result' if sc['with_result'] else 'no result')); res.count('finished_hook=%s' % sc['has_hook'])
         res.count('backend_timeout=%s' % bool(sc['timeout_ms']))
         res.count('marshaler=%s' % ('custom (bogus op id + extra key)' if sc.get('custom_marshaler') else 'json'))
+        if sc.get('overlapped'): res.count('overlap:two deliveries of different handlers together between "operation id stamped" and "reply published"', sc['overlapped'])
         for pr in sc.get('problems') or []:
             res.mismatches.append(dict(kind='harness observed something the scenario does not allow: ' + pr, case=dict(scenario=sc['index'])))
         for req in sc['reqs']:
